@@ -12,7 +12,9 @@ from drivers import realproc as rp
 # ---------------------------------------------------------------------------------------------
 # C10
 
-def run_reload(wk, nhup, new_workers, seed, bind="tcp"):
+def run_reload(wk, nhup, new_workers, seed, bind="tcp", drop_env_last=False):
+    """drop_env_last: the configuration of the last HUP no longer has the raw_env line: the workers of the last generation
+    run without the variable"""
     cfg1 = 'workers = 2\nraw_env = ["VERIF_MARKER=gen0"]\n'
     # "tcp2": a second listener; long requests go to the first one, the second one stays (almost) idle
     port2 = rp.free_port() if bind == "tcp2" else None
@@ -68,7 +70,9 @@ def run_reload(wk, nhup, new_workers, seed, bind="tcp"):
         want = 2
         for k in range(nhup):
             want = new_workers if k == nhup - 1 else 2 + (k % 2)
-            if want == 0:
+            if drop_env_last and k == nhup - 1:
+                s.rewrite_config('workers = %d\n' % want)
+            elif want == 0:
                 # the setting is removed from the file: the new configuration is the built-in default (1 worker)
                 want = 1
                 s.rewrite_config('raw_env = ["VERIF_MARKER=gen%d"]\n' % (k + 1))
@@ -87,7 +91,7 @@ def run_reload(wk, nhup, new_workers, seed, bind="tcp"):
             time.sleep(0.1)
         alive = [p for p in s.workers() if rp.proc_state(p) not in (None, "Z")]
         old_alive = [p for p in alive if p in initial]
-        final_marker = "gen%d" % nhup
+        final_marker = "-" if drop_env_last else "gen%d" % nhup
         settle_t = hups[-1] + 1.0
         tail = []
         for _ in range(6):
@@ -114,10 +118,12 @@ def run_reload(wk, nhup, new_workers, seed, bind="tcp"):
 
 def reload_side(ctx):
     plan = [("sync", 1, 3, "tcp"), ("gthread", 2, 1, "localhost"), ("gevent", 1, 3, "unix"), ("gevent", 1, 2, "tcp2"),
-            ("gthread", 1, 2, "unix"), ("sync", 2, 2, "unix"), ("sync", 2, 0, "tcp")] if ctx.quick else \
+            ("gthread", 1, 2, "unix"), ("sync", 2, 2, "unix"), ("sync", 2, 0, "tcp"), ("sync", 2, 2, "tcp", True), ("gthread", 3, 2, "unix", True)] if ctx.quick else \
         [(wk, n, w, b) for wk in ("sync", "gthread", "gevent", "eventlet")
-         for (n, w, b) in ((1, 3, "tcp"), (2, 1, "localhost"), (3, 2, "unix"), (1, 2, "tcp2"), (2, 0, "tcp"))]
-    results = _parallel(plan, lambda a, i: run_reload(a[0], a[1], a[2], ctx.seed * 10 + i, bind=a[3]), par=7)
+         for (n, w, b) in ((1, 3, "tcp"), (2, 1, "localhost"), (3, 2, "unix"), (1, 2, "tcp2"), (2, 0, "tcp"))] + \
+        [(wk, n, 2, "tcp", True) for wk in ("sync", "gthread", "gevent", "eventlet") for n in (1, 2, 3)]
+    results = _parallel(plan, lambda a, i: run_reload(a[0], a[1], a[2], ctx.seed * 10 + i, bind=a[3],
+                                                        drop_env_last=len(a) > 4 and a[4]), par=9)
     traces = [r[0] for r in results]
     metas = [r[1] for r in results]
     # in-process: TERM (what a reload sends to the old workers) at every system-call boundary of the real sync loop
